@@ -71,6 +71,11 @@ impl Ctx {
             o.insert("property".into(), json!(self.prop));
             o.insert("seed".into(), json!(self.seed));
         }
+        if std::env::var_os("LVERIF_CHECKPOINT").is_some() {
+            // sanitizer lane: a report ends the process at once, so what was observed so far and the case in flight are
+            // written down before the case starts
+            self.write_checkpoint(idx, &cj);
+        }
         match guard::run_case(id, opclass, self.watchdog, cj, f) {
             CaseEnd::Done(out) => self.report.merge(out),
             CaseEnd::Hung(out) => {
@@ -80,6 +85,21 @@ impl Ctx {
                 // a leaked case thread may hold database threads: leave the process
                 std::process::exit(3);
             }
+        }
+    }
+
+    fn write_checkpoint(&self, idx: u64, case: &J) {
+        let mut j = self.report.to_json();
+        j["property"] = json!(self.prop);
+        j["shard"] = json!(self.shard);
+        j["part"] = json!(self.part);
+        j["aborted_at"] = json!(idx);
+        j["in_flight"] = case.clone();
+        j["wall_s"] = json!(self.started.elapsed().as_secs_f64());
+        let path = self.out.join(format!("shard_{}.part_{}.json", self.shard, self.part));
+        let tmp = self.out.join(format!("shard_{}.part_{}.json.tmp", self.shard, self.part));
+        if std::fs::write(&tmp, serde_json::to_vec(&j).unwrap()).is_ok() {
+            let _ = std::fs::rename(&tmp, &path);
         }
     }
 
